@@ -63,6 +63,8 @@ pub fn instr_to_op<'a>(i: &J, t_void: u32, t_res: &dyn Fn(u64) -> wasmparser::Bl
         "br_if" => Operator::BrIf { relative_depth: i["d"].as_u64().unwrap() as u32 },
         "return" => Operator::Return,
         "unreachable" => Operator::Unreachable,
+        "throw" => Operator::Throw { tag_index: 0 },
+        "rcall" => Operator::ReturnCall { function_index: i["k"].as_u64().unwrap() as u32 },
         "nop" => Operator::Nop,
         "const" => Operator::I32Const { value: i["v"].as_i64().unwrap() as i32 },
         "drop" => Operator::Drop,
@@ -94,6 +96,8 @@ fn enc_instr(i: &J, f: &mut wasm_encoder::Function) {
         }
         "return" => f.instruction(&I::Return),
         "unreachable" => f.instruction(&I::Unreachable),
+        "throw" => f.instruction(&I::Throw(0)),
+        "rcall" => f.instruction(&I::ReturnCall(i["k"].as_u64().unwrap() as u32)),
         "nop" => f.instruction(&I::Nop),
         "const" => f.instruction(&I::I32Const(i["v"].as_i64().unwrap() as i32)),
         "drop" => f.instruction(&I::Drop),
@@ -136,6 +140,10 @@ pub fn build_module_x(body: &[J], arity: u64, nlocals: u32, imports_only: bool) 
         funcs.function(if arity == 0 { 0 } else { 1 });
         m.section(&funcs);
     }
+    // tag 0 (no parameters) for `throw`
+    let mut tags = TagSection::new();
+    tags.tag(TagType { kind: TagKind::Exception, func_type_idx: 0 });
+    m.section(&tags);
     let mut ex = ExportSection::new();
     ex.export("f", ExportKind::Func, F_LOCAL);
     m.section(&ex);
@@ -235,6 +243,14 @@ pub fn decode_body(bytes: &[u8]) -> Result<(Vec<J>, Vec<String>), String> {
                         }
                         Operator::Return => json!({"o":"return"}),
                         Operator::Unreachable => json!({"o":"unreachable"}),
+                        Operator::Throw { tag_index: 0 } => json!({"o":"throw"}),
+                        Operator::ReturnCall { function_index } => {
+                            let name = fnames.get(*function_index as usize).cloned().unwrap_or_default();
+                            match name.strip_prefix("op").and_then(|x| x.parse::<u32>().ok()) {
+                                Some(k) => json!({"o":"rcall","k":k}),
+                                None => json!({"o":"foreign","txt":format!("return_call {}", name)}),
+                            }
+                        }
                         Operator::Nop => json!({"o":"nop"}),
                         Operator::I32Const { value } => json!({"o":"const","v":value}),
                         Operator::Drop => json!({"o":"drop"}),
